@@ -82,7 +82,38 @@ _MIR = np.diag([1.0, -1.0, 1.0])
 AFFIX = {"est1": "x_ref", "est2": "ref_y"}
 
 
+def evo_association(s1, s2, max_diff, offset_2):
+    """evo's own association primitive on two stamp lists, called the way
+    associate_trajectories calls it -> [(index in s1, index in s2)]; used by
+    the reference pipelines only for contested counterparts, after which the
+    pairs are validated against the predicate of the property"""
+    from evo.core import sync
+    snd_longer = len(s2) > len(s1)
+    short, long_, off = (s1, s2, offset_2) if snd_longer else (s2, s1,
+                                                               -offset_2)
+    ms, ml = sync.matching_time_indices(np.array(short, dtype=float),
+                                        np.array(long_, dtype=float),
+                                        max_diff, off)
+    return list(zip(ms, ml)) if snd_longer else list(zip(ml, ms))
+
+
 def geometry_variant(ref, est, geometry):
+    if geometry == "b":
+        # a burst: one more estimate pose 0.05 s after the third one - with
+        # t_max_diff 0.3 both contend for the same reference pose
+        k = 2
+        Rs, ps, ts = list(est.Rs), list(est.ps), list(est.stamps)
+        Rs.insert(k + 1, Rs[k] @ geom.rodrigues((0, 0, 1), 0.01))
+        ps.insert(k + 1, ps[k] + np.array([0.02, 0.01, 0.0]))
+        ts.insert(k + 1, ts[k] + 0.05)
+        # (the trajectory with fewer poses drives the search: two late
+        # reference poses keep the estimate the shorter one)
+        rR, rp, rt = list(ref.Rs), list(ref.ps), list(ref.stamps)
+        for d in (30.0, 31.0):
+            rR.append(rR[-1])
+            rp.append(rp[-1] + np.array([1.0, 0.0, 0.0]))
+            rt.append(rt[0] + d)
+        return RTraj(rR, rp, rt), RTraj(Rs, ps, ts)
     if geometry == "same":
         # the reference file given as the estimate as well
         return ref, RTraj(list(ref.Rs), list(ref.ps), list(ref.stamps))
@@ -121,7 +152,7 @@ def write_fixture(wd):
             text = f.read()
         with open(os.path.join(wd, dst + ".txt"), "w") as f:
             f.write(text)
-    for g in ("m", "f"):
+    for g in ("m", "f", "b"):
         r_g, e_g = geometry_variant(ref, est1, g)
         rfiles.write_tum(os.path.join(wd, "ref_%s.txt" % g), r_g.stamps,
                          r_g.ps, r_g.Rs)
@@ -285,7 +316,8 @@ def expected(pt):
             if fmt == "kitti":
                 rtmp = ref
             else:
-                rtmp, t = pl.associate(ref, t, pt.get("t_max_diff", 0.01))
+                rtmp, t = pl.associate(ref, t, pt.get("t_max_diff", 0.01),
+                                       resolver=evo_association)
             if al in ("a", "s", "as", "s+origin"):
                 t, _ = pl.align(t, rtmp, correct_scale=al in ("s", "as",
                                                               "s+origin"),
@@ -377,6 +409,8 @@ def run_point(pt):
         exp, refusal = None, r
     except pl.Ambiguous as a:
         return [], "ambiguous:" + str(a)
+    except pl.AssociationViolation as v:
+        return ["time association with the reference: %s" % v], "exported"
     if refusal is None and exp_kind == "tum" and fmt == "kitti":
         refusal = pl.Refusal("tum-export-without-stamps")
     res = cli.run_cli("traj", argv)
